@@ -96,6 +96,34 @@ CLAIMED["C15"] = dict(
    note="the WGSL interpreter is not reachable; the format documentation is the reference",
    technique="TLA+ encoder/decoder model (TLC) + replay + TLA+ trace validation (symbolic decode)",
    design_ref="DESIGN.md section 3 C15")
+CLAIMED["C06"] = dict(
+   text="TLC exhausts the 2D tile-recursion model (every inside-set on the closed lattice of a small image whose root tiles overhang, "
+        "sound interval oracle under four policies, fill and pixel modes: every pixel correct, every buffer entry written exactly once, "
+        "no write outside the root buffer) and emits bitmaps; the harness renders bitmaps realised as unions of pixel-aligned rectangles, "
+        "random CSG, NaN-interval shapes and bundled models with the real renderer (sizes, tile lists incl. non-powers of two, affine "
+        "and projective views, VM / JIT, pools) and records the brute-force value at every pixel; Trace_C06 requires inside <=> value < 0 "
+        "(rounding band excepted) and, pixel-perfect, the value itself.",
+   note="reference values: interpreter on the unsimplified shape (tied to direct graph evaluation by C01); band 2e-5 around zero",
+   technique="TLA+ design model (TLC exhaustive) + replay of generated bitmaps / shapes into the real renderer + TLA+ trace validation",
+   design_ref="DESIGN.md section 3 C06")
+CLAIMED["C07"] = dict(
+   text="TLC exhausts the voxel-renderer model (every voxel set on a small column block, z-descending root loop with break, early exits, "
+        "full / empty tiles over the closed box, first-hit search, merge clamp; four oracle policies: depth = brute-force heightmap, "
+        "gradient requested at the hit voxel, the code's assertion never fires); the harness renders stacked objects, voxel-aligned boxes "
+        "and CSG on grids with unequal sides and depths that are not multiples of the root tile and records the brute-force heightmap "
+        "and reference normals; Trace_C07 compares every column inside the claim.",
+   note="reference normals come from the same backend's gradient evaluator on the unsimplified shape (C05 judges gradients)",
+   technique="TLA+ design model (TLC exhaustive) + replay into the real renderer + TLA+ trace validation",
+   design_ref="DESIGN.md section 3 C07")
+CLAIMED["C09"] = dict(
+   text="TLC exhausts the task fan-out model (K workers, T tasks, cancel at any moment, per-worker private state re-initialised at will: "
+        "all-or-nothing, nothing only if cancelled, a token never set gives a result, task outputs independent of worker and schedule); "
+        "the harness runs 2D renders, voxel renders and meshes with no pool, the global pool and pools of 1..16 threads, sets the token "
+        "before the run, after exactly k polls (counted inside the cancel-poll hook) or never, perturbs task starts through the "
+        "schedule-point hook, and evaluates one JIT tape from up to 16 threads; Trace_C09 applies the model's invariants to every run.",
+   note="interleavings are perturbed, not enumerated, on the real code; the verdict never depends on timing",
+   technique="TLA+ design model (TLC exhaustive) + hook-driven cancellation / schedule perturbation on the real code + TLA+ trace validation",
+   design_ref="DESIGN.md section 3 C09")
 NOT_YET = {}
 props = [json.loads(l) for l in open(os.path.join(ROOT, "properties.jsonl"))]
 m = {
@@ -105,7 +133,7 @@ m = {
    "guard": "fidget_verif",
    "enable": "RUSTFLAGS=\"--cfg fidget_verif --check-cfg cfg(fidget_verif)\" (set in /verif/harness/.cargo/config.toml; never in /repo)",
    "baseline_off_cmd": "cd /repo && cargo nextest run --workspace --no-fail-fast --test-threads 8 --offline || cargo test --workspace --no-fail-fast --offline",
-   "source_commits": [],
+   "source_commits": ["16ce250", "849e604", "9be9fb2"],
    "add_only": True,
  },
  "engines": [{"name": "vcheck", "path": "bin/vcheck", "serves_properties": sorted(CLAIMED),
